@@ -133,6 +133,7 @@ def _rewrite_tuple(tp, mapping):
 
 class Census:
     extra_precondition = None   # hook: f(fn, an, pv, cs, name) -> reason or None
+    extra_panic = None          # hook: f(fn, an, cs) -> reason or None  (a panic entry point shown unreachable by another rule)
 
     def __init__(self, F, rep, rule_prefix, in_scope):
         self.F = F
@@ -284,6 +285,10 @@ class Census:
         rule = self.prefix + "call"
         if cls == PANIC:
             self.counts["panic-call"] += 1
+            why = self.extra_panic(fn, an, cs) if self.extra_panic else None
+            if why:
+                rep.ok(rule, self.key(fn, "panic-call", name), where, why)
+                return
             rep.bad(rule, self.key(fn, "panic-call", name), where,
                     "%s calls the panic entry point %s on a feasible path" % (fn["qual"], name))
             return
